@@ -13,7 +13,8 @@
 EXTENDS Encoding, Encoding_Tables, Json
 Decls == {None} \cup T_Spellings
 Paths == {"bytes", "file", "moddir", "reload"}
-ListCells == {T_Cells[i] : i \in 1..Len(T_Cells)}
+NoCells == {}
+InitList == InitRest /\ \E i \in 1..Len(T_Cells) : cell = T_Cells[i]
 \* the grids are enumerated as initial states (not built as sets)
 InitInP(diag) ==
           /\ InitRest
@@ -33,7 +34,7 @@ InitOutP(diag) ==
 Report == /\ Finished /\ Emit /\ PrintT(ToJson(Observation)) /\ pc' = "reported"
           /\ UNCHANGED <<cell, enc, res, text, content, modfile, loaded, src, uni, out>>
 MCNext == Next \/ Report
-MCSpec == Init /\ [][MCNext]_vars
+MCSpec == InitList /\ [][MCNext]_vars
 SpecIn == InitInP(FALSE) /\ [][MCNext]_vars
 SpecInDiag == InitInP(TRUE) /\ [][MCNext]_vars     \* quick tier: both characters equal
 SpecOut == InitOutP(FALSE) /\ [][MCNext]_vars
